@@ -48,7 +48,7 @@ def gen_case(rng, idx, big):
     if rng.chance(1, 2):
         # the ENVELOPE around the state: the byte-exact honest reply with the declared length / the position of the nested bytes
         # changed and the CRC recomputed (a peer of another version, a buggy or a hostile one: the CRC only guards the wire)
-        lines.append('badenvelope 1 %s %d' % (rng.choice(['ok', 'len', 'len', 'ptr']), rng.choice([0, 1, 5, 40])))
+        lines.append('badenvelope 1 %s %d' % (rng.choice(['ok', 'len', 'len', 'ptr', 'shift', 'shift']), rng.choice([0, 1, 5, 40])))
     lines.append('end')
     return lines
 
